@@ -112,6 +112,8 @@ def gen_c03(tier, seed):
     for layout in ([G.CORE_LAYOUT, (3, 1, 1)] if q else [l for l in G.LAYOUTS if l[2]]):
         for bk in (["heap"] if q else ["heap", "reloc", "stack:512"]):
             for L in ([3] if q else [1, 3, 4]):
+                cap = G.kind_cap(bk, layout[0])
+                if cap is not None and (cap < 0 or L > cap): continue
                 ops = ["clear 0", "pop 0 drop", "dropvec 0", "drain 0 u u e F:drop drop", "drain 0 i0 e%d e - drop" % min(L, 2)]
                 for i in sorted(set([0, L // 2, L - 1])):
                     ops += ["remove 0 %d drop" % i, "swapremove 0 %d drop" % i]
@@ -216,6 +218,10 @@ def gen_c06(tier, seed):
         for bk, tr in (kinds if layout == G.CORE_LAYOUT or not q else kinds[:1]):
             cl = "clone" in tr
             for L in ([3] if q else [1, 3, 4]):
+                cap = G.kind_cap(bk, layout[0])
+                # a splice that outgrows a fixed capacity panics in `Splice::drop`; together with an injected panic that is a
+                # panic while unwinding = process abort by the language's rules, not a statement about the crate
+                if cap is not None and cap < L + 3: continue
                 for op in fault_targets(L, cl):
                     if op.startswith("clone") and not cl: continue
                     for k in range(1, (7 if q else 10)):
@@ -376,7 +382,9 @@ def gen_c09(tier, seed):
             ops.append(["lazydc 0 %d 1 0" % L])                       # out of range: `at` panics, nothing cloned
             for seq in ops:
                 c = G.Case("lz%d" % n, layout); n += 1
-                v0 = c.new(0, rng.choice(["heap", "reloc", "stack:512"]), "clone"); v1 = c.new(0, "heap", "clone")
+                # (a fixed-capacity source must be able to hold the L elements the references point into)
+                bks = [b for b in ("heap", "reloc", "stack:512") if G.kind_cap(b, layout[0]) is None or G.kind_cap(b, layout[0]) >= L]
+                v0 = c.new(0, rng.choice(bks), "clone"); v1 = c.new(0, "heap", "clone")
                 G.fill(c, v0, L, rng); G.fill(c, v1, 2, rng)
                 for o_ in seq: c.add(o_)
                 c.add("probe 0"); c.add("probe 1"); c.add("iter 0 FFFFF")
@@ -543,6 +551,8 @@ def gen_c13(tier, seed):
     for layout in lays:
         for bk, tr in ([("heap", "clone"), ("reloc", "none"), ("stack:512", "clone")] if (layout == G.CORE_LAYOUT or not q) else [("heap", "clone")]):
             for L in ([0, 1, 3] if q else [0, 1, 2, 4]):
+                cap = G.kind_cap(bk, layout[0])
+                if cap is not None and (cap < 0 or L > cap): continue
                 ops = [["get 0 %d" % i, "at 0 %d" % i] for i in range(L + 2)]
                 ops += [["iter 0 " + "F" * (L + 1)], ["iter 0 " + "B" * (L + 1)]]
                 for i in range(L + 1):
